@@ -76,6 +76,13 @@ CHECKS = {
         "signs applied by the harness, index tables, charge, labels, scalars, vectors; decompositions through spectra and reconstructed products; phase_sync must clear the table, apply each sign "
         "exactly once and be idempotent.",
    note="Trusted: harness embedding with harness-applied signs. Raw-storage accessors (get_params, set_params, apply_to_arrays, blocks) are excluded: they expose storage by design. Boolean results of isfinite are not expanded."),
+ "C20": dict(engine="E-enum", design_ref="DESIGN.md 5 C20",
+   technique="exhaustive enumeration of dtypes x operation catalogue x arrays with missing sectors on the real code (depth 1, and depth 2 behind structure-creating operations); oracle = dtype rule + double-precision differential run",
+   text="For float32, float64, complex64 and complex128, every catalogue operation (both fuse strategies, both contraction modes, fill_missing_blocks, densification, decompositions, arithmetic, phase "
+        "operations, through methods / symmray functions / autoray) is applied to abelian arrays, fermionic arrays with pending signs and block vectors whose sparsity forces zero-block creation, and "
+        "every core operation again to every result of the structure-creating ones. Every block of every result must carry the operand's dtype (the real counterpart for singular values, eigenvalues, "
+        "abs, norm), the value must match the same call in double precision, and numpy's ComplexWarning is turned into an error so a discarded imaginary part cannot pass silently.",
+   note="Trusted: numpy promotion rules as reference for 'same type'. Arrays without blocks carry no dtype and are skipped. Decomposition values are judged in C11/C12."),
 }
 
 _ALL = ["C%02d" % i for i in range(1, 21)]
